@@ -151,7 +151,11 @@ def run(ctx):
                     p = r["payloads"][0]
                     if mj["data"] != raw:
                         why.append("data")
-                    if mj["errors"] != sorted(e["path"] + " :: " + e["message"] for e in p["errors"]):
+                    want_errs = mj["errors"]
+                    if r.get("defaultRecover"):
+                        # gqlgen's own recover func answers every panic with the same text
+                        want_errs = sorted(e.split(" :: ")[0] + " :: internal system error" if " :: recovered: " in e else e for e in want_errs)
+                    if want_errs != sorted(e["path"] + " :: " + e["message"] for e in p["errors"]):
                         why.append("errors")
                     if mj["invs"] != sorted(i["path"] + " " + i["hook"] for i in r["log"]):
                         why.append("invocations")
